@@ -39,8 +39,8 @@ func (m *muxIndexer) get() txindex.TxIndexer {
 	defer m.mu.Unlock()
 	return m.cur
 }
-func (m *muxIndexer) AddBatch(b *txindex.Batch) error  { return m.get().AddBatch(b) }
-func (m *muxIndexer) Index(r *tmtypes.TxResult) error  { return m.get().Index(r) }
+func (m *muxIndexer) AddBatch(b *txindex.Batch) error         { return m.get().AddBatch(b) }
+func (m *muxIndexer) Index(r *tmtypes.TxResult) error         { return m.get().Index(r) }
 func (m *muxIndexer) Get(h []byte) (*tmtypes.TxResult, error) { return m.get().Get(h) }
 func (m *muxIndexer) Search(ctx context.Context, q *query.Query) ([]*tmtypes.TxResult, error) {
 	return m.get().Search(ctx, q)
@@ -102,6 +102,7 @@ type BlockRes struct {
 	Txs     []TxRes
 	Updates []abci.ValidatorUpdate
 	AppHash []byte
+	Aborted bool // the application panicked during this block
 	Begin   abci.ResponseBeginBlock
 	End     abci.ResponseEndBlock
 	Deliver []abci.ResponseDeliverTx
@@ -116,7 +117,19 @@ type Replica struct {
 	Idx  *kv.TxIndex
 	idb  dbm.DB
 
-	closed bool
+	LastInit abci.ResponseInitChain
+	closed   bool
+
+	// Panicked is set when the application's panic handler ran during a call on this replica
+	// (the handler recovers, prints and then closes the application).
+	Panicked  bool
+	PanicCall string
+	panics0   int64
+}
+
+// InitRes is the consensus-relevant part of an InitChain response.
+type InitRes struct {
+	Validators []abci.ValidatorUpdate
 }
 
 // NewReplica creates an application on a fresh data directory (or reopens dir if given).
@@ -151,40 +164,56 @@ func (r *Replica) enter() {
 	mux.cur = r.Idx
 	mux.mu.Unlock()
 	identity.VerifSetETHWitness(r.Role.IsWitness)
+	r.panics0 = app.VerifPanics()
+}
+
+func (r *Replica) leave(call string) {
+	if app.VerifPanics() != r.panics0 && !r.Panicked {
+		r.Panicked = true
+		r.PanicCall = call
+	}
 }
 
 func (r *Replica) InitChain(c *Chain) abci.ResponseInitChain {
 	r.enter()
-	return r.App.ABCI().InitChain(c.InitReq())
+	defer r.leave("InitChain")
+	r.LastInit = r.App.ABCI().InitChain(c.InitReq())
+	return r.LastInit
 }
 
 func (r *Replica) Info() abci.ResponseInfo {
 	r.enter()
+	defer r.leave("Info")
 	return r.App.ABCI().Info(abci.RequestInfo{})
 }
 
 func (r *Replica) CheckTx(tx []byte) abci.ResponseCheckTx {
 	r.enter()
+	defer r.leave("CheckTx")
 	return r.App.ABCI().CheckTx(abci.RequestCheckTx{Tx: tx})
 }
 
 func (r *Replica) BeginBlock(b *Block) abci.ResponseBeginBlock {
 	r.enter()
+	defer r.leave("BeginBlock")
 	return r.App.ABCI().BeginBlock(b.BeginReq())
 }
 
 func (r *Replica) DeliverTx(tx []byte) abci.ResponseDeliverTx {
 	r.enter()
+	defer r.leave("DeliverTx")
 	return r.App.ABCI().DeliverTx(abci.RequestDeliverTx{Tx: tx})
 }
 
 func (r *Replica) EndBlock(h int64) abci.ResponseEndBlock {
 	r.enter()
+	defer r.leave("EndBlock")
 	return r.App.ABCI().EndBlock(abci.RequestEndBlock{Height: h})
 }
 
 func (r *Replica) Commit() abci.ResponseCommit {
 	r.enter()
+	defer r.leave("Commit")
 	return r.App.ABCI().Commit()
 }
 
@@ -195,37 +224,51 @@ func (r *Replica) IndexBlock(b *Block, res []abci.ResponseDeliverTx) {
 	}
 }
 
-// RunBlock executes one whole block, commits and indexes it.
+// RunBlock executes one whole block, commits and indexes it. When the application panics
+// (its handler then shuts it down) the remaining calls are skipped and Aborted is set.
 func (r *Replica) RunBlock(b *Block) *BlockRes {
-	res := &BlockRes{Height: b.Height}
-	res.Begin = r.BeginBlock(b)
-	for _, tx := range b.Txs {
-		d := r.DeliverTx(tx)
-		res.Deliver = append(res.Deliver, d)
-		res.Txs = append(res.Txs, TxRes{Code: d.Code, Data: d.Data, GasWanted: d.GasWanted, GasUsed: d.GasUsed, Log: d.Log})
+	res := r.runUpToEnd(b)
+	if res.Aborted {
+		return res
 	}
-	res.End = r.EndBlock(b.Height)
-	res.Updates = res.End.ValidatorUpdates
 	cm := r.Commit()
+	if r.Panicked {
+		res.Aborted = true
+		return res
+	}
 	res.AppHash = cm.Data
 	r.IndexBlock(b, res.Deliver)
 	return res
 }
 
-// SpecBlock runs BeginBlock..EndBlock without Commit (speculative execution: the next
-// BeginBlock creates a fresh deliver state, so nothing of it survives).
-func (r *Replica) SpecBlock(b *Block) *BlockRes {
+func (r *Replica) runUpToEnd(b *Block) *BlockRes {
 	res := &BlockRes{Height: b.Height}
 	res.Begin = r.BeginBlock(b)
+	if r.Panicked {
+		res.Aborted = true
+		return res
+	}
 	for _, tx := range b.Txs {
 		d := r.DeliverTx(tx)
+		if r.Panicked {
+			res.Aborted = true
+			return res
+		}
 		res.Deliver = append(res.Deliver, d)
 		res.Txs = append(res.Txs, TxRes{Code: d.Code, Data: d.Data, GasWanted: d.GasWanted, GasUsed: d.GasUsed, Log: d.Log})
 	}
 	res.End = r.EndBlock(b.Height)
+	if r.Panicked {
+		res.Aborted = true
+		return res
+	}
 	res.Updates = res.End.ValidatorUpdates
 	return res
 }
+
+// SpecBlock runs BeginBlock..EndBlock without Commit (speculative execution: the next
+// BeginBlock creates a fresh deliver state, so nothing of it survives).
+func (r *Replica) SpecBlock(b *Block) *BlockRes { return r.runUpToEnd(b) }
 
 // Close closes all databases of the replica and removes its directory.
 func (r *Replica) Close() {
